@@ -97,11 +97,13 @@ func (f *Fragmentation) Process(id uint32, first, last uint16, more bool, vv buf
 	}
 	f.mu.Unlock()
 
-	res, done, consumed := r.process(first, last, more, vv)
+	res, done, consumed, err := r.process(first, last, more, vv)
 
 	f.mu.Lock()
 	f.size += consumed
-	if done {
+	if done || err != nil {
+		// Also drop what was collected for a datagram whose fragments are
+		// inconsistent: it can never be completed.
 		f.release(r)
 	}
 	// Evict reassemblers if we are consuming more memory than highLimit until
@@ -114,6 +116,9 @@ func (f *Fragmentation) Process(id uint32, first, last uint16, more bool, vv buf
 		}
 	}
 	f.mu.Unlock()
+	if err != nil {
+		return buffer.VectorisedView{}, false
+	}
 	return res, done
 }
 
